@@ -64,7 +64,7 @@ func init() {
 						r = 3600
 					}
 					mk := func() *vpCfg {
-						return &vpCfg{Store: k.store, Refresh: r, EmailDomains: []string{"example.com"}, AllowedGroups: []string{"g1"}, Htpasswd: true, HtpasswdGroups: []string{"g1"}, Legacy: map[string]bool{"passAccessToken": true, "setXAuthRequest": true}}
+						return &vpCfg{Store: k.store, Refresh: r, EmailDomains: []string{"example.com"}, AllowedGroups: []string{"g1"}, Htpasswd: true, HtpasswdGroups: []string{"g1"}, Bearer: true, Legacy: map[string]bool{"passAccessToken": true, "setXAuthRequest": true}}
 					}
 					a, err := vpNewWorld(mk())
 					if err != nil {
@@ -294,6 +294,23 @@ func init() {
 							obs["class"] = w.classify(r)
 							if r.UpLast != nil {
 								obs["user"] = map[string]string{"hp": "hp"}[r.UpLast.Header.Get("X-Forwarded-User")]
+							}
+						case "bearer":
+							// an API client: a bearer token the provider issues for the user right now (current group membership), no cookie
+							u := vpS(st.Args, "user")
+							var mut func(map[string]interface{})
+							if vpS(st.Args, "kind") == "expired" {
+								mut = func(cl map[string]interface{}) { cl["exp"] = time.Now().Add(-time.Hour).Unix() }
+							}
+							pair[0].idp.mu.Lock()
+							tok := pair[0].idp.mintIDToken(u, mut, "")
+							pair[0].idp.mu.Unlock()
+							r := w.do(vpReq{Target: "/private", Header: [][2]string{{"Authorization", "Bearer " + tok}}})
+							obs["served"] = r.UpHits > 0
+							obs["status"] = r.Status
+							obs["class"] = w.classify(r)
+							if r.UpLast != nil {
+								obs["user"] = userOf(r.UpLast.Header.Get("X-Forwarded-Email"))
 							}
 						case "pwchange":
 							if atomic.LoadInt32(&vpReloadBroken) == 1 {
